@@ -149,6 +149,10 @@ func (route *SendFirstMatch) Dispatch(buf []byte) {
 func (route *ConsistentHashing) Dispatch(buf []byte) {
 	conf := route.config.Load().(consistentHashingConfig)
 	verifPoint("consistenthashing-after-load")
+	if len(conf.Dests()) == 0 {
+		// the last destination has been removed: there is nothing to hash to
+		return
+	}
 	if pos := bytes.IndexByte(buf, ' '); pos > 0 {
 		name := buf[0:pos]
 		dest := conf.Dests()[conf.Hasher.GetDestinationIndex(name)]
